@@ -390,8 +390,8 @@ def run(rep, tier, seed):
     if tier == 'quick':
         names, init_limit, max_states, gcap = configs.SMALL + ['crossing.7x7', 'four_rooms.7x7', 'memory_four_rooms.7x7', 'keydoor.7x7'], 60, 3000, 3
     else:
-        names, init_limit, max_states, gcap = configs.SMALL + configs.MEDIUM, 150, 5000, 8
-    rs, rt = dyn.run_reach(rep, names, init_limit, max_states, make_hooks, replay, 'representation_in_space', group_cap=gcap, lineages=2 if tier == 'quick' else 3)
+        names, init_limit, max_states, gcap = configs.SMALL + ['crossing.7x7', 'four_rooms.7x7', 'memory_four_rooms.7x7', 'keydoor.7x7'], 100, 4000, 4
+    rs, rt = dyn.run_reach(rep, names, init_limit, max_states, make_hooks, replay, 'representation_in_space', group_cap=gcap, lineages=2)
     rep.sample({'kind': 'space', 'skind': 'observation', 'shape': [3, 5], 'types': ['Floor', 'Door', 'Key'], 'colours': [1, 4], 'rep': 'compact'})
     rep.assume('grid shapes of at least 2x2 (the agent channel divides by height-1 / width-1), view shapes of odd width')
     return rep.finish(
